@@ -237,8 +237,8 @@ pub fn check(s: &'static dyn Proto, c: &Case, st: &mut Stats, _k: &KnownFindings
                         se.key, sessions[d.server_session].key, d.client
                     )))
                 }
-                (false, Err(PErr::InvalidLogin)) => {}
-                (false, Err(x)) => return Err(Fail::new(format!("cross-delivered finalization rejected with {x:?}, expected InvalidLogin"))),
+                // which error is C03's subject; here only "never lead to acceptance" is stated
+                (false, Err(_)) => {}
             }
         }
     }
